@@ -4,18 +4,24 @@ import kcp_common as K
 META = {
     "enabled": True,
     "engine": "kcp",
-    "technique": "Coq proofs of the liveness building blocks (ack owed, due retransmission, no give-up, Check/Update soundness) for all reachable states; drain-after-healing decided by exhaustive-fate and random simulation of the real cores (partial)",
-    "level_text": "Proved for every reachable state and clock value: the dead-link flag influences no transition; every PUSH below the upper window edge, new or duplicate, appends an ack which the next flush of either kind emits or covers by the cumulative una; every unacknowledged segment whose timer expired (or never sent) is put on the wire by the next full flush with its original payload; per-timeout back-off is additive and <= 60 s per step; Check never sleeps past a due flush/retransmission; Update flushes when due. PARTIAL: the whole-system progress theorem (a fair round of a healed network strictly advances snd_una or shrinks the backlog) is not mechanised; drain-within-bound is decided on the real cores for all fate vectors of the first K datagrams, random fault histories, outages of 0..10 min, both drivers, and the F13 wedge replay.",
-    "level_note": K.TRUST + " Partial: liveness of the two-endpoint system is established by simulation, not by a theorem. The permanent wedge F13 found while attempting the progress proof was repaired in /repo (known_findings.json).",
+    "technique": "Coq progress proof for the two-endpoint system: from every reachable state an explicit healed round strictly advances snd_una, and finitely many rounds drain the backlog and deliver everything (constructive liveness, no temporal logic); building blocks for all reachable states; differential replay + drain-after-healing monitor",
+    "level_text": "Proved for every reachable state and clock value: the dead-link flag influences no transition; every PUSH below the upper window edge, new or duplicate, appends an ack which the next flush of either kind emits or covers by the cumulative una; every unacknowledged segment whose timer expired (or never sent) is put on the wire by the next full flush with its original payload; per-timeout back-off is additive and <= 60 s per step; Check never sleeps past a due flush/retransmission; Update flushes when due. System level (C02b.v; data A->B, acknowledgements B->A; every reachable state of the two-way system in which each side is fed only datagrams the other emitted - i.e. after ANY finite fault history): the healed round (B reads; A flushes at a time at which its oldest unacknowledged segment is due; its datagrams reach B; B reads and flushes; the datagrams of B reach A) always exists, is itself a run of the system, and strictly advances snd_una of A (c02b_round_progress); with an empty snd_buf a flush admits queued data (c02b_queue_progress); with a zero remote window the probe round re-opens it (c02b_probe_round); at most `unacked` rounds leave WaitSnd = 0 with everything delivered to the reader (c02b_drains_delivered). Premises: no_wrap (fewer than 2^31 - 2^16 segments), the message-mode contract B8 (a message has fewer fragments than the receive window), one-directional data. The time a round needs is the timer of the oldest segment (c02_backoff_step: at most the previous rto + 60 s). The monitors additionally decide drain-within-bound on the real cores for all fate vectors of the first K datagrams, random fault histories, outages of 0..10 min, both drivers, and the F13 wedge replay.",
+    "level_note": K.TRUST + " The progress theorems are stated for one-directional data with acknowledgements flowing back; fairness is constructed (the round), so no fairness assumption is needed; real-time behaviour of the Go runtime is not exhibited. The permanent wedge F13 found while attempting the progress proof was repaired in /repo (known_findings.json).",
 }
 OBLIGATIONS = ["c02_no_giveup", "c02_ack_owed", "c02_flush_acks", "c02_retransmit_due", "c02_backoff_step",
                "c02_check_sound", "c02_update_flushes", "c02_first_update_flushes"]
 RELEVANT = K.RESULTS | K.PANICS | K.TIMERS | {"sb", "rq", "rb", "una", "nxt", "rnxt", "rmtwnd", "probe"}
 
 
+SYSTEM_OBLIGATIONS = ["c02b_run_proj", "c02b_link_step", "c02b_link_reach", "c02b_round_total", "c02b_round_progress", "c02b_round",
+                      "c02b_queue_progress", "c02b_probe_round", "c02b_round_is_run", "c02b_probe_is_run", "c02b_drains",
+                      "c02b_delivered", "c02b_drains_delivered"]
+
+
 def run(ctx):
     K.core_check(ctx, "C02", "C02.v", OBLIGATIONS, RELEVANT,
                  "kcp.go vs coq/kcp/Kcp.v on fault histories followed by a healed network")
+    K.extra_statements(ctx, "kcp", "C02b.v", SYSTEM_OBLIGATIONS)
     ctx.coverage["rule"] = ("all 4^K fate vectors for the first K datagrams, random loss/outage/stall histories with outage lengths {0,1,99,100 ms,60 s,10 min}, "
                             "then a fair network with both sides driven (flush-with-interval or Update/Check) and readers reading until WaitSnd = 0 on both sides "
                             "or 10 virtual minutes; non-trivial = the history had a retransmission or a zero-window episode")
